@@ -1,7 +1,8 @@
 #!/bin/bash
 # Build a tree of libscientific out-of-source and run its own test suite (guard OFF: there are no source hooks).
-# usage: run_baseline.sh <source-dir> <build-dir>     prints per-test "name: OK|FAIL" lines found in the output + ctest summary
-SRC=${1:-/repo}; B=${2:-/tmp/bl_build}
+# usage: run_baseline.sh <source-dir> <build-dir>     env CTEST_TIMEOUT (default 900)
+# prints the ctest summary and compares the "<name>: OK" result lines with /root/.vp/BASELINE.json (62 stable names).
+SRC=${1:-/repo}; B=${2:-/tmp/libsci_baseline_build}
 set -e
 cmake -G Ninja -S "$SRC" -B "$B" >/dev/null
 cmake --build "$B" >/dev/null
@@ -10,5 +11,18 @@ cd "$B"
 find "$B" -name "*.sqlite3" -delete
 OPENBLAS_NUM_THREADS=1 ctest --test-dir "$B" -j8 --timeout ${CTEST_TIMEOUT:-900} --output-on-failure -O "$B/ctest.log" > /dev/null || true
 grep -E "tests passed|tests failed" "$B/ctest.log" || true
-# the 62 baseline result lines are "<name>: OK" style lines printed by the test programs
-grep -ahoE "^[A-Za-z0-9 /_\-]+(: |\.\.\. ?)(OK|Ok|ok|PASS|FAIL|Fail|fail|ERROR)[A-Za-z!. ]*$" "$B/Testing/Temporary/LastTest.log" | sort | uniq -c | awk '{c[$NF]++} END{for(k in c) print k, c[k]}'
+/usr/bin/python3 - "$B/Testing/Temporary/LastTest.log" <<'PY'
+import json, re, sys
+log = open(sys.argv[1], errors="replace").read()
+ok = set()
+for line in log.splitlines():
+    m = re.match(r"^\s*(.+?)\s*(?::|\.\.\.)\s*(OK|Ok|ok)[.! ]*$", line)
+    if m: ok.add(m.group(1).strip())
+try:
+    base = json.load(open("/root/.vp/BASELINE.json"))["stable_pass"]
+except Exception:
+    base = []
+missing = [n for n in base if n not in ok]
+print("baseline result lines reported OK: %d of %d" % (len(base) - len(missing), len(base)))
+if missing: print("NOT reported OK:", missing)
+PY
